@@ -226,10 +226,16 @@ def run(ctx):
         "the model: poly_difference_assign, "
         "simplify_using_context_assign, the system-valued add_constraints / add_generators / refine_with_constraints, "
         "relation_with(Constraint), the general (non-permutation) case of map_space_dimensions",
-        "full Polyhedron model, theorems (Props/C01Full.lean): the conversion contract ConvContract is a hypothesis (its clauses "
-        "proved for the engine model are listed there); full_refines_reference / full_history_correct cover is_empty, copy, "
-        "add_constraint, intersection_assign, unconstrain and the non-invertible affine_(pre)image on a pool of objects; the other "
-        "operators have their own end-to-end theorems (C02.*_full), those named _partial assume one or two fields of the invariant "
-        "of the result (EnginePair / LowLevel after an in-place rewrite of a minimized pair)",
+        "full Polyhedron model, theorems (Props/C01Full.lean): the conversion contract ConvContract is a hypothesis (clauses "
+        "proved for the engine model: the closed-topology 'not empty' and 'empty' reports down to K1's semantics of the raw rows; "
+        "the cone-level DD-pair / minimal-form theorems of C01Conv* are listed there; NOT derived: the cone-to-K1 bridge for NNC, the "
+        "generator-to-constraint direction, the incremental entries, EnginePair / LowLevel / genWF of the outputs); "
+        "full_refines_reference / full_history_correct cover 13 operations on a pool of objects (is_empty, contains, copy, add_constraint, "
+        "intersection_assign, unconstrain, affine_image, affine_preimage (invertible case included), generalized_affine_image (<= = >=), "
+        "remove_space_dimensions, remove_higher_space_dimensions, poly_hull_assign, time_elapse_assign) with the answers of is_empty "
+        "and contains; operator== (`_partial`: TVB_FALSE answers of quick_equivalence_test), relation_with(g), embed / project / "
+        "concatenate (`_partial`: hEng when both descriptions are up to date), topological_closure_assign (`_partial`: hLow) have "
+        "their own end-to-end theorems; NOT covered by a theorem: add_generator (points), bounds / max_min, minimized_* (NNC strong "
+        "minimization), expand / fold / map, bounded_affine_image, strict generalized_affine_image",
     ]
     return broken
